@@ -15,7 +15,9 @@ K("awkward_ListArray_num", per_spec={"U32": {"requires": [LE("fromstarts", "from
   requires=[LE("fromstarts", "fromstops", "length")],
   serves=["C05", "C02", "C12", "C13"])
 
-K("awkward_ListArray_getitem_next_at", per_spec={"U32": {"requires": [LE("fromstarts", "fromstops", "lenstarts")]}},
+K("awkward_ListArray_getitem_next_at",
+  store_asserts={"tocarry": ["fromstarts[i] <= value and value < fromstops[i]"]},
+  per_spec={"U32": {"requires": [LE("fromstarts", "fromstops", "lenstarts")]}},
   serves=["C01", "C12", "C13"])
 
 K("awkward_ListArray_min_range",
@@ -33,6 +35,7 @@ K("awkward_ListArray_getitem_jagged_descend",
   serves=["C01", "C12", "C13"])
 
 K("awkward_ListOffsetArray_rpad_axis1",
+  store_asserts={"toindex": ["value == -1 or (fromoffsets[i] <= value and value < fromoffsets[i + 1])"]},
   sums={"S": ("q", "fromlength", "max(fromoffsets[q + 1] - fromoffsets[q], target)")},
   extents={"toindex": "S(fromlength)"},
   requires=[SORTED("fromoffsets", "fromlength + 1")],
@@ -43,6 +46,7 @@ K("awkward_ListOffsetArray_rpad_axis1",
   serves=["C09", "C12", "C13"])
 
 K("awkward_ListArray_rpad_axis1",
+  store_asserts={"toindex": ["value == -1 or (fromstarts[i] <= value and value < fromstops[i])"]},
   requires=[LE("fromstarts", "fromstops", "length")],
   per_spec={"ListArray64": {
       "sums": {"S": ("q", "length", "max(fromstops[q] - fromstarts[q], target)")},
